@@ -20,6 +20,29 @@ impl Checker for C10 {
     fn check(&self, cfg: &Cfg, ops: &[Op], ex: &Exec) -> Vec<(String, String)> {
         let Some(b) = self.base.get(&cfg.name) else { return vec![("C10/machinery/no-baseline".into(), cfg.name.clone())] };
         let mut v = o::o_fat_copies("C10", ops, ex, b);
+        // volumes formatted by the library itself (with a non-default media byte): "keep" relative to the initial image
+        // says nothing about an entry that was wrong from the start, so entry 0 is compared with the boot sector
+        if cfg.name.starts_with("fmt") && ex.panic.is_none() && ex.completed {
+            let st = ex.st.borrow();
+            if let Ok(g) = harness::decoder::parse_raw(&st.read_vec(0, 512)) {
+                let ones: u32 = match g.width {
+                    12 => 0xF00,
+                    16 => 0xFF00,
+                    _ => 0x0FFF_FF00,
+                };
+                for c in 0..g.nfats {
+                    let f = harness::decoder::FatView::new(&st, &g, c);
+                    let e0 = f.raw(0) & 0x0FFF_FFFF;
+                    if e0 != ones | g.media as u32 {
+                        v.push((
+                            "C10/reserved-entry-0-does-not-hold-the-media-descriptor".into(),
+                            format!("copy {c}: entry 0 = {e0:#x}, media byte of the boot sector {:#04x}", g.media),
+                        ));
+                        break;
+                    }
+                }
+            }
+        }
         // padding entries are never handed out / nothing links past the last cluster: decoder findings
         if let Some(Ok(d)) = &ex.post {
             for f in &d.findings {
@@ -133,6 +156,23 @@ pub fn configs(th: bool) -> Vec<Cfg> {
     v.push(mk_geo(32, 8, 7, 65525, "m32-spc8-slack7"));
     if th {
         v.push(mk(32, 3, 0x82, 0x5, 5, "m32-3f-active2-nib5"));
+    }
+    // volumes formatted by the library with each legal non-default media byte class (removable 0xF0, 0xF9, 0xFF)
+    for (ft, w) in [(fatfs::FatType::Fat12, 12), (fatfs::FatType::Fat16, 16), (fatfs::FatType::Fat32, 32)] {
+        for media in [0xF0u8, 0xF9, 0xFF] {
+            if !th && ((w == 16 && media != 0xF9) || (w == 12 && media != 0xFF)) {
+                continue;
+            }
+            let mut spec = vol::tiny_spec(ft);
+            if w == 12 {
+                spec.clusters = Some(12);
+            } else {
+                spec.free = Some(5);
+            }
+            spec.name = format!("fmt{w}-media{media:02x}");
+            let (img, cands) = vol::build_with(&spec, &|o| o.media(media)).expect("formatted volume");
+            v.push(vol::cfg_from(&spec.name, img, cands));
+        }
     }
     // storage that cuts transfers at its own 7-byte block boundaries: the FAT copies start at different offsets
     // modulo 7, so a FAT word that is written in one piece in one copy is split in another
